@@ -196,6 +196,26 @@ def memo_decorator_roles(ck, m):
             ck.extra.setdefault("roles", {})[dq] = rename_locals(dfn, roles)
 
 
+def rule_stateless_renderers(ck, m, rid):
+    """Renderers and size helpers compute their result from their arguments and the image's settings; they remember nothing on the instance or the
+    class (a hand-rolled memo of the last encoded data, the last size ...): a value kept from one render is stale for the next one as soon as any
+    input the key does not cover has changed (size, cell geometry, style arguments)."""
+    NAMES = ("_render_image", "_get_render_data", "_format_render", "_get_render_size", "_get_minimal_render_size", "_pixels_cols", "_pixels_lines", "_width_height_px", "_valid_size")
+    n = 0
+    for rel, q, fn in m.functions():
+        if not rel.startswith("image/") or fn.name not in NAMES:
+            continue
+        n += 1
+        for t, st in stores_in(ast.Module(body=fn.body, type_ignores=[])):
+            root = t
+            while isinstance(root, (ast.Attribute, ast.Subscript)):
+                root = root.value
+            if isinstance(t, (ast.Attribute, ast.Subscript)) and isinstance(root, ast.Name) and root.id in ("self", "cls") or (isinstance(t, ast.Attribute) and norm(root) in ("type(self)", "__class__")):
+                ck.ob(rid, st, False, f"{q} stores `{short(st, 60)}`: a renderer / size helper keeps state on the instance or class between calls - what it remembers from one render is stale for the next "
+                      "whenever an input outside its key changed", stmt=f"{rel}::{q}: renderers keep no state between renders")
+    ck.expect(n >= 8, f"renderers / size helpers found: {n}")
+
+
 def rule_memo_key(ck, m, rid):
     """The key under which utils.cached stores a result identifies the call: the positional arguments and the keyword arguments WITH their
     values (`kwargs.items()`); a key built from the keyword names only lets `f(hex=False)` and `f(hex=True)` share one entry."""
